@@ -124,7 +124,7 @@ class C13(PropertyCheck):
                     ro_scripts.append(self.probe("ro%d" % n, argv)); n += 1
         fail_scripts = []
         for i in range(400 if q else 10000):
-            argv = gen_mixed.rand_cmd(rng, inplace_ok=True, malformed=True)
+            argv = gen_mixed.rand_cmd(rng, inplace_ok=True, malformed=True, keyspace=True)
             fail_scripts.append(self.probe("f%d" % i, argv))
         alias = gen_set.alias_probes(rng, 0, "als") + gen_zset.alias_scripts("alz")
         for s in alias:
@@ -159,7 +159,9 @@ class C13(PropertyCheck):
             cmd = next(e for e in s.events if e[0] == "cmd")
             word = str(cmd[2]).upper()
             modelled = b and not any(l.startswith("BAD") for l in b)
-            if word not in ("RANDOMKEY", "TOUCH", "OBJECTFREQ", "OBJECTIDLETIME", "ZRANDMEMBER", "HRANDFIELD", "SRANDMEMBER", "SPOP"):
+            # RANDOMKEY / ZRANDMEMBER: compare_lines keeps the shape of the random reply only (common.RANDOM_WORDS);
+            # TOUCH / OBJECTFREQ / OBJECTIDLETIME are deterministic without a memory limit and compared strictly
+            if word not in ("HRANDFIELD", "SRANDMEMBER", "SPOP"):
                 d = compare_lines(s, a, b, self.reply_opts, {"with_mem": False})
                 if d:
                     div.append((s, d))
@@ -169,6 +171,20 @@ class C13(PropertyCheck):
                 if "DIED" in a or "HUNG" in a or not r:
                     rej.append((s, {"what": "the server died or hung", "trace": a}))
                 continue
+            if word == "RANDOMKEY" and r[0] not in ("R -", "R !"):
+                # allowed outcomes (Proofs/KeyspaceCmds.v randomkey_outcome): a live key of the selected database, or the
+                # empty bulk string exactly when the database has no live key
+                self.oracle_comparisons += 1
+                _, live0, _ = split_digest(g[0], NOW)
+                livekeys = sorted(k for (db, k) in live0 if db == 0)
+                ok = r[0].startswith("R $") and ((r[0][3:] in livekeys) if livekeys else r[0] == "R $")
+                if livekeys and r[0] == "R $" and "" in livekeys:
+                    ok = True
+                if not ok:
+                    rej.append((s, {"what": "RANDOMKEY replied something that is not a live key of the selected database "
+                                            "(or not the empty string on a database without live keys)",
+                                    "command": cmd[2:], "reply": r[0], "live_keys": livekeys, "before": g[0]}))
+                    continue
             must_be_pure = word in ro_set or r[0] == "R -" or r[0] == "R !"
             if r[0] == "R !":
                 rej.append((s, {"what": "the handler panicked", "command": cmd[2:]}))
